@@ -175,8 +175,9 @@ def const_term(nd):
     return ('C', nd['opid'])
 
 
-def create_node(m, nd):
-    """Create the elfi node of a node description in model m (parents must exist)."""
+def create_node(m, nd, defer_kw=False):
+    """Create the elfi node of a node description in model m (parents must exist; with defer_kw only the positional ones -
+    the caller adds the named edges afterwards)."""
     import elfi
     nm = nd['name']
     P = [m[p] for p in nd['pos']]
@@ -195,17 +196,37 @@ def create_node(m, nd):
         r = elfi.Summary(Sym(nd['opid'], len(P), kws), *P, model=m, name=nm, observed=obs_term(nd) if nd['obs'] else None)
     else:
         r = elfi.Discrepancy(Sym(nd['opid'], len(P), ['observed']), *P, model=m, name=nm)
-    for k, p in nd['kw'].items():
-        m.add_edge(p, nm, k)
+    if not defer_kw:
+        for k, p in nd['kw'].items():
+            m.add_edge(p, nm, k)
     if nd['meta']:
         r.uses_meta = True
     return r
 
 
-def build(spec, name='g', order=None):
+def build(spec, name='g', order=None, late_kw_seed=None):
+    """late_kw_seed: nodes are created in a random order that respects only the POSITIONAL edges, and every named edge is
+    added afterwards with model.add_edge - the way a user wires a named input from a node created later. The graph is the same;
+    the model's node insertion order is then not a topological order of it."""
     import elfi
     m = elfi.ElfiModel(name=name)
     by = {nd['name']: nd for nd in spec}
+    if late_kw_seed is not None:
+        import numpy as np
+        rs = np.random.RandomState(late_kw_seed)
+        left, done, seq = [nd['name'] for nd in spec], set(), []
+        while left:
+            ready = [n for n in left if all(p in done for p in by[n]['pos'])]
+            n = ready[int(rs.randint(len(ready)))] if rs.rand() < 0.5 else ready[-1]
+            seq.append(n)
+            done.add(n)
+            left.remove(n)
+        for n in seq:
+            create_node(m, by[n], defer_kw=True)
+        for n in seq:
+            for k, p in by[n]['kw'].items():
+                m.add_edge(p, n, k)
+        return m
     seq = spec if order is None else [by[n] for n in order]
     for nd in seq:
         create_node(m, nd)
